@@ -99,7 +99,11 @@ def r4_rbe3_order(ctx):
                 # a DOF list that was itself sorted by an earlier ordering step is not an order reference; the table's index is
                 if any(d[0] == "fn" and d[1].startswith("call:") and d[1].endswith("mat_intersect") for _, d in G.atoms_of(v)):
                     continue
-                st = sites.setdefault(id(node), [node, [], []])
+                # an ordering step is named by the *values* it orders (the DOF list and the reference), not by the call site: a helper or
+                # closure that wraps the call is one site but as many steps as it is called with different lists
+                other = a.get("D2" if k == "D1" else "D1")
+                okey = G.vkey(other) if other is not None and not is_unknown(other) and not isinstance(other, tuple) else ("site", id(node))
+                st = sites.setdefault((G.vkey(v), okey), [node, [], [], len(sites)])
                 for sel in _row_selections(v):
                     if G.fn_atoms(sel, "call:mkdofpv"):
                         st[1].append(_show(sel, 240))
@@ -107,7 +111,7 @@ def r4_rbe3_order(ctx):
                         st[2].append(_show(sel, 240))
     if not sites:
         raise AnchorError("formrbe3: no ordering step against the USET table (locate.mat_intersect with the table's [id, dof] index)")
-    for k, (node, bad, unclear) in enumerate(sorted(sites.values(), key=lambda x: (x[0].lineno, x[0].col_offset))):
+    for k, (node, bad, unclear, _) in enumerate(sorted(sites.values(), key=lambda x: x[3])):
         inst = f"formrbe3 (ordering step {k + 1}): rows / columns are ordered against the [id, dof] index of the USET table in *table* order (a row selection made with " \
                "mkdofpv(uset, 'p', <id list>) is in the order of the id list - `maintains the order of DOF as specified` - not of the table)"
         if unclear and not bad:
